@@ -255,7 +255,7 @@ structure RelEntry where
 
 /-- `get_entries_num()` -/
 def entriesNum (r : SecBuf) : BitVec 64 :=
-  if rsw_num_nz r.entSize then rsw_num_div r.size r.entSize else 0
+  if rsw_num_nz r.entSize then rsw_num_div r.size r.entSize else rsw_num_init
 
 /-- the class / section-type dispatch shared by `get_entry` and `set_entry`
     (`none`: unknown relocation section type) -/
@@ -355,12 +355,14 @@ def swapLoop (e : Enc) : Nat → SecBuf → RelEntry → BitVec 32 → BitVec 64
     if rsw_loop_cond i (entriesNum r) then
       match swapStep e r cur i first second with
       | .error er => .error er
-      | .ok (r, cur) => swapLoop e fuel r cur (i + 1) first second
+      | .ok (r, cur) => swapLoop e fuel r cur (rsw_i_incr i) first second
     else .ok r
 
 /-- `relocation_section_accessor::swap_symbols(first, second)` -/
 def swapSymbols (e : Enc) (r : SecBuf) (first second : BitVec 64) : M SecBuf :=
-  swapLoop e ((entriesNum r).toNat + 1) r {} 0 first second
+  swapLoop e ((entriesNum r).toNat + 1) r
+    { offset := rsw_init_offset, symbol := rsw_init_symbol, rtype := rsw_init_rtype, addend := rsw_init_addend }
+    rsw_i_init first second
 
 /-- the callback `[&](Elf_Xword a, Elf_Xword b){ for (auto& r : tables) r.swap_symbols(a, b); }` -/
 def relCallback (e : Enc) : List SecBuf → BitVec 64 → BitVec 64 → M (List SecBuf)
